@@ -715,6 +715,7 @@ def inline(E, st, mi, ci, fn, selfv, args, kwargs):
 
 # --------------------------------------------------------------------------- contracts at call sites
 def spec_env(E, c, selfv, args, kwargs, st):
+    from . import pymodel
     env = {}
     names = [n for n, _ in c.params]
     kinds = dict(c.params)
@@ -736,6 +737,14 @@ def spec_env(E, c, selfv, args, kwargs, st):
                 raise Unsupported("missing argument %s for contract %s" % (n, c.qual))
     for n in names:
         v = env[n]
+        if (v.kind.tag == "fn" and isinstance(v.t, tuple) and v.t[0] == "dictview" and v.t[2] in ("values", "keys")
+                and all(a.tag == "seq" for a in alts(kinds[n]))):
+            # a keys() / values() view handed to a parameter that the contract declares as an immutable sequence: the
+            # callee sees the enumeration of the dictionary in its state at the call (exact as long as the callee does
+            # not write the dictionary, which its frame clause decides)
+            st, sv = pymodel.dictview_seq(E, st, v)
+            if any(a[1] == sv.kind[1] for a in alts(kinds[n])):
+                env[n] = v = sv
         ok = any(E._compatible(v.kind, a) or (a.tag == "real" and v.kind.tag in ("int", "bool")) or
                  (a.tag == "int" and v.kind.tag == "bool") or (a.tag == "seq" and v.kind.tag == "list" and a[1] == v.kind[1])
                  for a in alts(kinds[n]))
@@ -745,7 +754,7 @@ def spec_env(E, c, selfv, args, kwargs, st):
         env["self"] = selfv
     if "result" in env:
         env["arg_result"] = env["result"]  # a parameter called `result` is visible in clauses as arg_result
-    return env
+    return env, st
 
 
 def _lit(x):
@@ -926,7 +935,7 @@ Engine.havoc = havoc
 
 def apply_contract(E, st, c, selfv, args, kwargs):
     """Use a callee through its contract only."""
-    env = spec_env(E, c, selfv, args, kwargs, st)
+    env, st = spec_env(E, c, selfv, args, kwargs, st)
     if c.assumed:
         E.trusted.add("assumed contract: %s%s" % (c.qual, (" -- " + c.note) if c.note else ""))
     top = E.frames[0]
